@@ -34,10 +34,11 @@ def recs(D, name, axis="/Info/AxisValues_t"):
 def check_point(cfg, p, p2, r, D, Dfull, sched):
     if r.rc != 0:
         return "exit status %d after SIGINT at interrupt point %d" % (r.rc, p)
-    if "Aborted." not in r.out and sched["steps"] < P.laststep(cfg["N"], cfg["T"]):
-        return "no 'Aborted.' message after SIGINT at point %d" % p
-    if "Aborted." not in r.out and "Finished." not in r.out:
-        return "neither 'Aborted.' nor 'Finished.' reported (point %d)" % p
+    # every interrupt point lies before the closing message: the run must be reported as aborted wherever the signal
+    # arrived, also during the last step and after the loop has been left
+    if "Aborted." not in r.out:
+        return "not reported as aborted after SIGINT at point %d (%s): the log ends with %r" % (
+            p, r.trace[p] if p < len(r.trace) else "?", r.out.strip().split("\n")[-1][-60:])
     if D is None or not D.get("ok"):
         return "results file missing or unreadable after SIGINT at point %d" % p
     sk = P.skeleton_check(cfg, D, sched)
